@@ -15,6 +15,14 @@ var (
 	ErrSendRequestFailed = errors.New("error sending request to target")
 )
 
+// The client used for upstream requests never follows redirects itself: a 3xx answer
+// of the origin is relayed to the client like any other response.
+var upstreamClient = &http.Client{
+	CheckRedirect: func(req *http.Request, via []*http.Request) error {
+		return http.ErrUseLastResponse
+	},
+}
+
 func removeHopByHopHeaders(header http.Header) {
 	for _, v := range header.Values("Connection") {
 		for raw := range strings.SplitSeq(v, ",") {
@@ -80,7 +88,7 @@ func sendRequestToTarget(req *http.Request, httpsDefault bool) (*http.Response, 
 	removeHopByHopHeaders(req.Header)
 
 	slog.Debug("Sending request", "url", req.URL, "method", req.Method)
-	resp, err := http.DefaultClient.Do(req)
+	resp, err := upstreamClient.Do(req)
 	if err != nil {
 		slog.Error("Error sending request to target", "url", req.URL, "error", err)
 		return nil, fmt.Errorf("%w: %v", ErrSendRequestFailed, err)
